@@ -28,10 +28,13 @@ type qparams struct {
 	NoWait bool // the probe sessions carry early data (0-RTT)
 	Ds     int
 	Seed   int64
+	// Double: a fourth user with two quota entries (2 MB / 1 day and 2 MB / 30 days) first moves
+	// this many bytes: inside each allowance taken alone
+	Double int
 }
 
 func (p qparams) String() string {
-	return fmt.Sprintf("udp=%v limited-user-traffic up=%d down=%d probe-0rtt=%v seed=%d", p.UDP, p.Up, p.Down, p.NoWait, p.Seed)
+	return fmt.Sprintf("udp=%v limited-user-traffic up=%d down=%d probe-0rtt=%v two-window-user-traffic=%d seed=%d", p.UDP, p.Up, p.Down, p.NoWait, p.Double, p.Seed)
 }
 
 const mib = 1 << 20
@@ -73,15 +76,16 @@ func qexec(p qparams, ctl *explore.Ctl) explore.Result {
 		{Name: proto.String("limited"), Password: proto.String("pw-l"), Quotas: []*appctlpb.Quota{{Days: proto.Int32(1), Megabytes: proto.Int32(1)}}},
 		{Name: proto.String("free"), Password: proto.String("pw-f")},
 		{Name: proto.String("big"), Password: proto.String("pw-b"), Quotas: []*appctlpb.Quota{{Days: proto.Int32(30), Megabytes: proto.Int32(100000)}}},
+		{Name: proto.String("double"), Password: proto.String("pw-d"), Quotas: []*appctlpb.Quota{{Days: proto.Int32(1), Megabytes: proto.Int32(2)}, {Days: proto.Int32(30), Megabytes: proto.Int32(2)}}},
 	}
 	cfg := world.Config{UDP: p.UDP, MTU: 1400, Users: users, Seed: p.Seed, Horizon: 120 * time.Second, NoClient: true, NoWait: p.NoWait}
 	if p.Ds > 0 && thoroughTier {
 		cfg.Stalls = []time.Duration{5 * time.Millisecond, 1500 * time.Millisecond}
 	}
 	// bytes the server application read / wrote, per user (the tag encodes the user)
-	var appRead, appWrote [3]int64
+	var appRead, appWrote [4]int64
 	refusedRead := int64(0)
-	probe := [3]string{}
+	probe := [4]string{}
 	total := p.Up + p.Down
 	ex := world.Run(cfg, ctl, func(w *world.World) {
 		w.Go("srv-accept", "server", func() {
@@ -103,7 +107,7 @@ func qexec(p qparams, ctl *explore.Ctl) explore.Result {
 					continue
 				}
 				ui := (tag / 100) % 10
-				if ui > 2 {
+				if ui > 3 {
 					ui = 0
 				}
 				// Accept has read the 10-byte request from the session on behalf of the application
@@ -128,15 +132,19 @@ func qexec(p qparams, ctl *explore.Ctl) explore.Result {
 						return
 					}
 					// transfer session: read Up bytes, write Down bytes
+					up, down := p.Up, p.Down
+					if ui == 3 {
+						up, down = 0, p.Double
+					}
 					got := 0
-					for got < p.Up {
+					for got < up {
 						n, err := cc.Read(buf)
 						got += n
 						if err != nil && !world.IsTimeout(err) {
 							break
 						}
 					}
-					left := p.Down
+					left := down
 					for left > 0 {
 						n := left
 						if n > 32768 {
@@ -152,7 +160,7 @@ func qexec(p qparams, ctl *explore.Ctl) explore.Result {
 				})
 			}
 		})
-		clis := make([]client.Client, 3)
+		clis := make([]client.Client, 4)
 		for i, u := range users {
 			c, err := w.NewClient(&appctlpb.User{Name: u.Name, Password: u.Password}, net.IPv4(10, 9, 0, byte(1+i)))
 			if err != nil {
@@ -200,6 +208,27 @@ func qexec(p qparams, ctl *explore.Ctl) explore.Result {
 			conn.Close()
 			vsched.Sleep(100 * time.Millisecond)
 		}
+		if p.Double > 0 {
+			conn, err := w.DialWith(clis[3], 1300)
+			if err != nil {
+				v.Add("setup", "the two-window user's first session failed: %v", err)
+				return
+			}
+			if p.NoWait {
+				conn.Write([]byte{0})
+			}
+			buf := make([]byte, 65536)
+			for got := 0; got < p.Double; {
+				n, err := conn.Read(buf)
+				got += n
+				if err != nil && !world.IsTimeout(err) {
+					v.Add("setup", "the two-window user's download failed after %d bytes: %v", got, err)
+					return
+				}
+			}
+			conn.Close()
+			vsched.Sleep(100 * time.Millisecond)
+		}
 		// phase 2: every user opens a new session, concurrently
 		var g world.Group
 		for i := range users {
@@ -244,6 +273,12 @@ func qexec(p qparams, ctl *explore.Ctl) explore.Result {
 		if !served(1) || !served(2) {
 			v.Add("quota/innocent-user-refused", "users within their allowance were refused: free=%q big=%q", probe[1], probe[2])
 		}
+		if !served(3) && p.Double/mib <= 2 {
+			v.Add("quota/user-within-allowance-refused", "the user with two quota entries (2 MB / 1 day, 2 MB / 30 days) moved %d bytes, which is inside each allowance, and its new session was refused: %s", p.Double, probe[3])
+		}
+		if served(3) && p.Double/mib > 2 {
+			v.Add("quota/offender-served", "the user with two quota entries (2 MB each) moved %d bytes and its new session was served", p.Double)
+		}
 		switch {
 		case total >= 2*mib && served(0):
 			v.Add("quota/offender-served", "the limited user exchanged %d bytes (allowance 1 MB) and its new session was served", total)
@@ -262,7 +297,7 @@ func qexec(p qparams, ctl *explore.Ctl) explore.Result {
 			}
 		}
 	}
-	out := fmt.Sprintf("limited=%s/free=%s/big=%s", short(probe[0]), short(probe[1]), short(probe[2]))
+	out := fmt.Sprintf("limited=%s/free=%s/big=%s/double=%s", short(probe[0]), short(probe[1]), short(probe[2]), short(probe[3]))
 	if len(v.Viol) > 0 {
 		out = v.Viol[0].Signature
 	}
@@ -297,6 +332,11 @@ func quotaUnits(tier string) []runner.Unit {
 			run(u, qparams{Up: a[0], Down: a[1], NoWait: true, Seed: int64(i + 50)})
 		}})
 	}
+	us = append(us, runner.Unit{Name: "quota-two-windows", Cost: 6, Run: func(u *runner.U) {
+		for i, d := range []int{1000, mib + 800000, 2*mib + 900000, 3*mib + 4096} {
+			run(u, qparams{Up: 1000, Down: 1000, Double: d, Seed: int64(300 + i)})
+		}
+	}})
 	us = append(us, runner.Unit{Name: "quota-udp", Cost: 6, Run: func(u *runner.U) {
 		run(u, qparams{UDP: true, Up: 1000, Down: 1000, Seed: 100})
 		run(u, qparams{UDP: true, Up: 2*mib + 4096, Down: 0, Seed: 101})
